@@ -339,6 +339,31 @@ def run(cx):
             seen.add(key)
             if v != "A" or tags[cid].startswith("base") or st == 2:
                 nontriv += 1 if not tags[cid].startswith("base") else 0
+    # error-position sweep (deterministic): the errored object in every operand position, against partners of every
+    # emptiness class, operands evaluated (eager) or deferred (lazy); every result must stay errored and empty
+    sweep_n, sweep_lost = 0, {}
+    for l, rc1, out1, err1 in run_isolated(exe, ["E e0 eager", "E e1 lazy"]):
+        if rc1 == 124:
+            cx.notes.append("error sweep hit the runner's wall-clock timeout (machine load): " + l)
+            continue
+        if rc1 != 0:
+            cx.violation("error-sweep-crash:" + crash_site(err1), "the error-position sweep died (rc=%s %s)" % (rc1, san_summary(err1)), {"case": l})
+            continue
+        mode = l.split()[2]
+        for tok in out1.split("|", 1)[1].split():
+            name, st, nt, same = tok.rsplit(":", 3)
+            sweep_n += 1
+            opn = re.match(r"[A-Za-z.]+", name).group(0)
+            if st == "0" or nt != "0":
+                sweep_lost.setdefault("error-lost:" + opn, []).append("%s %s -> status %s, %s triangles" % (mode, name, st, nt))
+            elif same != "1":
+                sweep_lost.setdefault("error-nondeterministic:" + opn, []).append("%s %s" % (mode, name))
+    for key, lst in sorted(sweep_lost.items()):
+        cx.violation(key, "an operand with a non-NoError status gave a result without error in %d combination(s): %s" % (len(lst), "; ".join(lst[:6])),
+                     {"harness_line": "E e0 eager / E e1 lazy", "programs": lst[:40],
+                      "setup": "bad = Manifold(Tetrahedron MeshGL64 with vertProperties[4] = NaN); validEmpty = Cube() ^ Cube().Translate({5,0,0}); default = Manifold(); otherError = Manifold(mesh with triVerts[2] = 1000)"})
+    cx.cov["error_position_sweep_results"] = sweep_n
+
     # records the model predicts to be out of bounds: each in its own process
     confirmed = {}
     predicted = {}
